@@ -21,7 +21,7 @@ EXPLANATION = (
     "linking is CFG-dominated by the four indirection tests; every foreign VarRef is dominated by the privacy test; every "
     "context-manager that pushes onto a compiler scope stack pops it in a finally; locals are consulted before Vars."
 )
-DECIDES = "injectivity of munge (decision procedure over the table), guard dominance for direct linking and for privacy, exception-safety of the compiler's scope stacks, locals-before-Vars"
+DECIDES = "injectivity of munge (decision procedure over the table), guard dominance for direct linking and for privacy, exception-safety of the compiler's scope stacks, locals-before-Vars, bare global names (own and other namespaces) not capturable by locals, intern binds the namespace's Var, refer stages only filter or re-key"
 DECLINED = "histories of def/refer/alias and the value last given (runtime state)"
 TRUSTED = ["keyword.kwlist / builtins names of the running CPython", "contextlib.contextmanager: code after `yield` runs only on normal exit unless in finally"]
 ASSUMPTIONS = ["a CompilerContext outlives a failed form at the REPL (cli.repl creates it once; slot-checked)"]
